@@ -215,3 +215,18 @@ Lemma ref_readable_iff x t :
   (wrappers t < ref_depth -> read_ref ref_depth (ref_json x ref_depth t) = Some t) /\
   (ref_depth <= wrappers t -> read_ref ref_depth (ref_json x ref_depth t) = None).
 Proof. split; [apply read_ref_roundtrip | apply read_ref_too_deep]. Qed.
+
+(** A well-formed built schema is closed: the premise of [prepare_nocrash] and of progress is then
+    discharged by the check the harness makes on every generated schema ([xwf]). *)
+Lemma xwf_schema_closed x : xwf x = true -> schema_closed (erase x).
+Proof. intros H. exact (xwf_erase_closed x H). Qed.
+
+Lemma validation_never_crashes_built v doc vars q c x root s fs k :
+  convert v doc vars = ROk (q, c) -> xwf x = true -> lookup root x = Some (XObject s fs k) ->
+  is_crash (prepare v (erase x) root q) = false.
+Proof.
+  intros Hc Hwf Hr. apply prepare_nocrash.
+  - eapply convert_certified; eauto.
+  - apply xwf_schema_closed; exact Hwf.
+  - rewrite (lookup_erase_object x root s fs k (xwf_names x Hwf) Hr). discriminate.
+Qed.
